@@ -118,6 +118,8 @@ def fclass(file: str, sfile_norm) -> int:
         return 2
     if file.endswith('/nextline/spawned/utils.py'):
         return 3
+    if file.endswith('/plugins/global_.py'):
+        return 6
     if NEXTLINE_FILE.search(file):
         return 4
     return 5
@@ -201,7 +203,7 @@ def oracle(job: dict, res: dict, ref: dict) -> tuple[list, tuple]:
             bad.append(('interrupt:not-a-keyboard-interrupt', f'Ctrl-C while a prompt was open: result is {etype or "no exception"}'))
         prompts = [e for e in res.get('events', []) if e['type'] == 'OnStartPrompt']
         at = prompts[-1]['event'] if prompts else '?'
-        if any(c in (1, 2, 3, 4) for c in obs_cls) or (obs_cls and obs_cls[0] != 0):
+        if any(c in (1, 2, 3, 4, 6) for c in obs_cls) or (obs_cls and obs_cls[0] != 0):
             nl = [[f, n] for f, _, n in tb if NEXTLINE_FILE.search(f)]
             bad.append(('interrupt:nextline-frames-in-traceback:prompt-at-call-event' if at == 'call' else 'traceback:nextline-frames',
                         f'Ctrl-C while the prompt of a {at!r} event was open: the traceback of the KeyboardInterrupt contains {len(nl)} '
@@ -214,8 +216,11 @@ def oracle(job: dict, res: dict, ref: dict) -> tuple[list, tuple]:
                         f'formatted exception (RunResult.fmt_exc) first prints its __context__ -- the original KeyboardInterrupt -- with '
                         f'{len(ctx_frames)} Nextline/pluggy frames, e.g. {ctx_frames[0]} (clean_exception cleans exc.__traceback__ only)'))
         k = next((i for i, c in enumerate(obs_cls) if c not in (0, 5)), len(obs_cls))
-        user, mid = obs_cls[:k], obs_cls[k:]        # mid: frames between the user's and WithContext's (call events only)
-        return bad, ((2, [1] + user + mid + [3, 4, 4, 5], obs_cls) if user and 3 not in mid else None)
+        user = obs_cls[:k]
+        # the raw traceback: runner, the program's stack, then -- at a call event -- global_.py, pluggy, global_.py, pluggy,
+        # local_.py, and in every case WithContext's frames, pluggy, prompt.py, queue/threading
+        entry = [6, 4, 4, 4, 4, 6, 4, 4, 4, 4, 4] if at == 'call' else []
+        return bad, ((2, [1] + user + entry + [3, 3, 5, 5, 5, 4, 4, 4, 5, 5], obs_cls) if user else None)
     # ---- return value
     if (res.get('ret') or 'None') != (ref.get('ret') or 'None') and not ref.get('exc_type'):
         bad.append(('return-value-differs', f'returned {res.get("ret")} under nextline, {ref.get("ret")} directly'))
